@@ -225,7 +225,7 @@ def generate(ctx):
     gs = groups()
     nG = len(gs)
     pairs = [(k, 0) for k in range(nG)] + [(0, k) for k in range(nG)] + [(k, k) for k in range(nG)]
-    extra = 30 if ctx.tier == "quick" else 400
+    extra = 30 if ctx.tier == "quick" else 120
     for _ in range(extra):
         pairs.append((int(rng.integers(nG)), int(rng.integers(nG))))
     # every ordered pair of crystal systems through representative proper groups: the product sets Gl.Gr and Gr.Gl
@@ -241,7 +241,7 @@ def generate(ctx):
         idx = rng.choice(len(rest), 16, replace=False)
         cross = key + [rest[i] for i in idx]
     pairs += cross
-    per = 1 if ctx.tier == "quick" else 6
+    per = 1 if ctx.tier == "quick" else 2
     for kl, kr in pairs:
         Gl, Gr = gs[kl], gs[kr]
         if Gl.size * Gr.size > 600 and ctx.tier == "quick":
@@ -259,7 +259,7 @@ def generate(ctx):
             ctx.count("reduce/" + ("defined" if region_defined(Gl, Gr) else "undefined"), ("r", kl, kr, tuple(q[0])),
                       nontrivial=Gl.size * Gr.size > 1)
             yield "reduce", c
-            if region_defined(Gl, Gr):
+            if region_defined(Gl, Gr) and _ == 0:
                 ctx.count("large_cell_normals", ("n", kl, kr))
                 yield "large_cell_normals", {"kl": kl, "kr": kr}
                 ctx.count("loop_model", ("l", kl, kr, tuple(q[0])), nontrivial=Gl.size * Gr.size > 1)
